@@ -1,7 +1,7 @@
 SPECIFICATION GenSpec
 CONSTANTS SmallIds = {1} Widths = {} MaxTok = 1
   Texts <- CTexts HRs <- CHRs
-  MaxIn = 2 Kinds = {"h", "s", "c", "f", "l", "o"} MsgIds = {1} NextRVs <- CRVs Whats <- CWhats
+  MaxIn = 2 Kinds = {"h", "s", "c", "f", "p", "l", "o"} MsgIds = {1} NextRVs <- CRVs Whats <- CWhats
   MaxQ = 2 Hows = {"shut"} MaxSent = 2 Ops <- OpsQ
 CONSTRAINT BoundT
 VIEW SkelQ
